@@ -78,3 +78,153 @@ def to_py(ts):
     if d.tzinfo is None:
         return None
     return d.astimezone(datetime.timezone.utc)
+
+
+# ------------------------------------------------------------------------------------------
+# the documented trading rules, end to end (C08): plain python + Fractions
+# ------------------------------------------------------------------------------------------
+class Ambiguous(Exception):
+    """A floor / rounding boundary was hit exactly: the documented rule does not decide it."""
+
+
+def _floor(x):
+    return x.numerator // x.denominator
+
+
+def _trunc(x):
+    return _floor(x) if x >= 0 else -_floor(-x)
+
+
+def _near_int(x, eps=Fraction(1, 10**9)):
+    return abs(x - round(x)) <= eps
+
+
+def round_half(x):
+    fl = _floor(x)
+    fr = x - fl
+    if fr == Fraction(1, 2):
+        raise Ambiguous('consideration tie')
+    return fl if fr < Fraction(1, 2) else fl + 1
+
+
+def schedule(kind, start, end, weekday=None):
+    """start/end: aware datetimes. Returns the list of rebalance instants (aware datetimes)."""
+    d0, d1 = start.date(), end.date()
+    if kind == 'daily':
+        return [utc(d, 21, 0) for d in bdays(d0, d1)]
+    if kind == 'weekly':
+        wd = ['MON', 'TUE', 'WED', 'THU', 'FRI'].index(weekday.upper())
+        return [utc(d, 21, 0) for d in weekday_dates(d0, d1, wd)]
+    if kind == 'end_of_month':
+        return [utc(d, 21, 0) for d in month_end_bdays(d0, d1)]
+    if kind == 'buy_and_hold':
+        d = d0 if is_bday(d0) else next_bday(d0)
+        return [utc(d, start.hour, start.minute, start.second)]
+    raise ValueError(kind)
+
+
+def is_open(t):
+    if t.weekday() > 4:
+        return False
+    secs = t.hour * 3600 + t.minute * 60 + t.second
+    return 14 * 3600 + 30 * 60 <= secs < 21 * 3600
+
+
+class Backtest(object):
+    def __init__(self, cfg, price_fn):
+        """cfg: sessionlab configuration (fixed weights, static universe); price_fn(asset, t) -> Fraction"""
+        self.cfg = cfg
+        self.price = price_fn
+        self.cash = Fraction(str(cfg.get('cash', 10000.0)))
+        self.held = {}
+        self.pending = []        # (asset, qty)
+        self.fills = []          # (t, asset, qty, price, commission)
+        self.equity = []         # (t, value)
+        self.rebalances = []
+        fee = cfg.get('fee', ['zero'])
+        self.rate = Fraction(0) if fee[0] == 'zero' else Fraction(str(fee[1])) + Fraction(str(fee[2]))
+
+    def commission(self, price, qty):
+        if self.rate == 0:
+            return Fraction(0)
+        return self.rate * abs(round_half(price * qty))
+
+    def fill(self, t, asset, qty):
+        p = self.price(asset, t)
+        c = self.commission(p, qty)
+        self.cash -= p * qty + c
+        self.held[asset] = self.held.get(asset, 0) + qty
+        if self.held[asset] == 0:
+            del self.held[asset]
+        self.fills.append((t, asset, qty, p, c))
+
+    def total_equity(self, t):
+        return self.cash + sum(q * self.price(a, t) for a, q in self.held.items())
+
+    def size(self, t, weights):
+        eq = self.total_equity(t)
+        out = {}
+        if self.cfg['long_only']:
+            b = Fraction(str(self.cfg['buffer']))
+            tot = sum(weights.values())
+            for a in sorted(weights):
+                w = weights[a] / tot if tot != 0 else weights[a]
+                alloc = (1 - b) * eq * w
+                x = (alloc - self.rate * abs(alloc)) / self.price(a, t)
+                if _near_int(x):
+                    raise Ambiguous('floor boundary')
+                out[a] = _floor(x)
+        else:
+            lev = Fraction(str(self.cfg['leverage']))
+            gross = sum(abs(w) for w in weights.values())
+            for a in sorted(weights):
+                w = weights[a] * lev / gross if gross != 0 else weights[a]
+                alloc = eq * w
+                after = alloc - self.rate * abs(alloc)
+                if _near_int(after):
+                    raise Ambiguous('dollar truncation boundary')
+                x = Fraction(_trunc(after)) / self.price(a, t)
+                if _near_int(x) and x != 0:
+                    raise Ambiguous('share truncation boundary')
+                out[a] = _trunc(x)
+        return out
+
+    def run(self):
+        cfg = self.cfg
+        start, end = _parse(cfg['start']), _parse(cfg['end'])
+        burn = _parse(cfg['burn_in']) if cfg.get('burn_in') else None
+        sched = set(schedule(cfg['rebalance'], start, end, cfg.get('weekday')))
+        weights = {a: Fraction(str(w)) for a, w in cfg['alpha']['weights'].items()}
+        universe = list(cfg['assets'])
+        for d in bdays(start.date(), end.date()):
+            for t, typ in ((utc(d, 14, 30), 'open'), (utc(d, 21, 0), 'close')):
+                # broker update: fill everything pending if the exchange is open, sells first
+                if is_open(t) and self.pending:
+                    batch = sorted(self.pending, key=lambda o: (1 if o[1] > 0 else -1))
+                    self.pending = []
+                    for a, q in batch:
+                        self.fill(t, a, q)
+                if t in sched and (burn is None or t >= burn):
+                    self.rebalances.append(t)
+                    full = sorted(set(self.held) | set(universe) | set(weights))
+                    wv = {a: weights.get(a, Fraction(0)) for a in full}
+                    target = self.size(t, wv)
+                    for a in full:
+                        q = target.get(a, 0) - self.held.get(a, 0)
+                        if q != 0:
+                            # the execution handler submits one order and updates the broker at once
+                            if is_open(t):
+                                self.fill(t, a, q)
+                            else:
+                                self.pending.append((a, q))
+                if typ == 'close' and (burn is None or t >= burn):
+                    self.equity.append((t, self.total_equity(t)))
+        return self
+
+
+def _parse(s):
+    s = str(s)
+    d = datetime.datetime.fromisoformat(s.replace('Z', '+00:00'))
+    if d.tzinfo is None:
+        d = d.replace(tzinfo=datetime.timezone.utc)
+    return d.astimezone(datetime.timezone.utc)
